@@ -8,6 +8,8 @@ package sim
 // reported by the parent.
 
 import (
+	"bytes"
+	"encoding/base64"
 	"encoding/json"
 	"fmt"
 	"sort"
@@ -28,7 +30,7 @@ var entryFieldPaths = []string{"v", "id", "key", "sig", "hash", "next", "refs", 
 
 var manifestFieldPaths = []string{"id", "heads", "heads.0"}
 
-var mutKinds = [...]string{"absent", "null", "wrong-type", "extra", "wrong-type-2", "empty"}
+var mutKinds = [...]string{"absent", "null", "wrong-type", "extra", "wrong-type-2", "empty", "str-double", "str-half", "str-b64-48", "str-odd"}
 
 func wrongType(v interface{}, alt int) interface{} {
 	switch v.(type) {
@@ -64,6 +66,20 @@ func wrongType(v interface{}, alt int) interface{} {
 		return "x"
 	}
 	return 1
+}
+
+// otherString: a different, still plausible string (longer, shorter, other encodings' lengths).
+func otherString(s string, kind string) string {
+	switch kind {
+	case "str-double":
+		return s + s
+	case "str-half":
+		return s[:len(s)/2]
+	case "str-b64-48":
+		return base64.StdEncoding.EncodeToString(bytes.Repeat([]byte{0xab}, 48))
+	default:
+		return s + "f"
+	}
 }
 
 func emptyOf(v interface{}) interface{} {
@@ -106,6 +122,12 @@ func mutateObj(obj map[string]interface{}, path string, kind int) bool {
 					c["zz_extra_"+p] = "unexpected"
 				case "empty":
 					c[p] = emptyOf(v)
+				default:
+					sv, ok := v.(string)
+					if !ok {
+						return false
+					}
+					c[p] = otherString(sv, mutKinds[kind])
 				}
 				return true
 			}
@@ -129,6 +151,8 @@ func mutateObj(obj map[string]interface{}, path string, kind int) bool {
 					return false
 				case "empty":
 					c[idx] = ""
+				default:
+					return false
 				}
 				return true
 			}
@@ -255,7 +279,9 @@ func exerciseEntry(w *World, e iface.IPFSLogEntry, honest iface.IPFSLogEntry) {
 }
 
 func RunC12(r *Run) {
-	w := BuildWorld(r, sourceProfile("C12"))
+	sp := sourceProfile("C12")
+	sp.LinkKey = r.Choose("c12-linkkey", 3) == 0 // readers that decrypt links decode two more fields
+	w := BuildWorld(r, sp)
 	if r.Choose("legacy-scenario", 3) == 0 {
 		r.T.Mark()
 		w.pbScenario()
